@@ -57,7 +57,7 @@ theorem cellDigit_le (o : Ops α) (side : α) (n : Int) (x : α) : cellDigit o s
 def effDigit (o : Ops α) (side : α) (n : Int) (len : α) (x : α) : Int :=
   if len ≤ x then n else cellDigit o side n x
 
-omit [Add α] [Sub α] [Mul α] [Neg α] [LT α] [DecidableLT α] [BEq α] in
+omit [Add α] [Sub α] [Mul α] [Neg α] [DecidableLT α] [BEq α] in
 theorem effDigit_mono {o : Ops α} {st : Stepper α} {side : α} {n : Int} {len : α} (laws : StepLaws o st side n len)
     (x : α) : effDigit o side n len (st.down x) ≤ effDigit o side n len x := by
   unfold effDigit
@@ -69,7 +69,7 @@ theorem effDigit_mono {o : Ops α} {st : Stepper α} {side : α} {n : Int} {len 
   · rw [if_neg h, if_neg (laws.down_len x h)]
     exact laws.mono x
 
-omit [Add α] [Sub α] [Mul α] [Neg α] [LT α] [DecidableLT α] [BEq α] in
+omit [Add α] [Sub α] [Mul α] [Neg α] [DecidableLT α] [BEq α] in
 theorem effDigit_slow {o : Ops α} {st : Stepper α} {side : α} {n : Int} {len : α} (laws : StepLaws o st side n len)
     (x : α) : effDigit o side n len x ≤ effDigit o side n len (st.down x) + 1 := by
   unfold effDigit
@@ -81,7 +81,7 @@ theorem effDigit_slow {o : Ops α} {st : Stepper α} {side : α} {n : Int} {len 
   · rw [if_neg h, if_neg (laws.down_len x h)]
     exact laws.slow x
 
-omit [Add α] [Sub α] [Mul α] [Neg α] in
+omit [Add α] [Sub α] [Mul α] [Neg α] [BEq α] in
 /-- for a cell of the grid (`i < n`) the two loop conditions of the upper block are tests of `effDigit` -/
 theorem upper_conds {o : Ops α} {st : Stepper α} {side : α} {n : Int} {len : α} (laws : StepLaws o st side n len)
     {i : Int} (hi : i < n) (x : α) :
@@ -181,10 +181,10 @@ theorem upperPos_sound (o : Ops α) (st : Stepper α) (fuel : Nat) (side : α) (
     have := cellDigit_le o side n (st.up u)
     omega
 
-omit [Add α] [Sub α] [Neg α] [LE α] [DecidableLE α] [BEq α] in
+omit [Add α] [Sub α] [Neg α] [DecidableLE α] [BEq α] in
 /-- **extent_sound (lower end)**: for a cell not at the origin (`0 < i·side`), if the start `i·side` is not
 above cell `i`, the returned `cell_min` has digit `i` and the next scalar below it has digit `i - 1`. -/
-theorem lowerPos_sound [LE α] (o : Ops α) (st : Stepper α) (fuel : Nat) (side : α) (n : Int) (len : α) (i : Int)
+theorem lowerPos_sound (o : Ops α) (st : Stepper α) (fuel : Nat) (side : α) (n : Int) (len : α) (i : Int)
     (laws : StepLaws o st side n len)
     (hpos : o.ofInt 0 < o.ofInt i * side)
     (start : cellDigit o side n (o.ofInt i * side) ≤ i) (l : α)
